@@ -992,4 +992,28 @@ CASES = [
       else { std::memcpy(buffer, arg.data(), len); buffer += len; }""")]),
  dict(name="c04-map-count-missing-in-size", ids=["C04"], rule="C04.R1", subs=[("std/Map.h", "    size_t total_size{sizeof(size_t)};\n", "    size_t total_size{0};\n")]),
  dict(name="c04-chararray-copies-N-plus-one", ids=["C04"], rule="C04.R1", subs=[(CDC, "      size_t len = detail::safe_strnlen(arg, N) + 1u;", "      size_t len = detail::safe_strnlen(arg, N) + 2u;")]),
+
+ # ---------------- extra rules (second round)
+ dict(name="c17-registry-holds-sinks-strongly", ids=["C17"], rule="C17.R5a", subs=[("core/SinkManager.h", "    std::weak_ptr<Sink> sink_ptr;\n  };", "    std::shared_ptr<Sink> sink_ptr;\n  };"),
+      ("core/SinkManager.h", "SinkInfo(std::string sid, std::weak_ptr<Sink> sptr)\n      : sink_id(static_cast<std::string&&>(sid)), sink_ptr(static_cast<std::weak_ptr<Sink>&&>(sptr)) {};", "SinkInfo(std::string sid, std::shared_ptr<Sink> sptr)\n      : sink_id(static_cast<std::string&&>(sid)), sink_ptr(static_cast<std::shared_ptr<Sink>&&>(sptr)) {};"),
+      ("core/SinkManager.h", "      if (it->sink_ptr.expired())", "      if (it->sink_ptr.use_count() <= 1)"),
+      ("core/SinkManager.h", "      sink = search_it->sink_ptr.lock();", "      sink = search_it->sink_ptr;")]),
+ dict(name="c17-close_file-keeps-handle", ids=["C17"], rule="C17.R5e", subs=[("sinks/FileSink.h", "    fclose(_file);\n    _file = nullptr;\n", "    fclose(_file);\n")]),
+ dict(name="c17-filesink-dtor-does-not-close", ids=["C17"], rule="C17.R5d", subs=[("sinks/FileSink.h", "  ~FileSink() override { close_file(); }", "  ~FileSink() override { if (_config.fsync_enabled()) { close_file(); } }")]),
+ dict(name="c17-cleanup-skips-after-first", ids=["C17"], rule="C17.R5c", subs=[("core/SinkManager.h", "        it = _sinks.erase(it);\n        ++cnt;", "        ++it;\n        ++cnt;")]),
+ dict(name="c14-append-mode-deletes", ids=["C14"], rule="C14.R5", subs=[(RSH, "    if (_config.remove_old_files() && (open_mode == \"w\"))", "    if (_config.remove_old_files())")]),
+ dict(name="c14-recovered-sorted-descending", ids=["C14"], rule="C14.R5c", subs=[(RSH, "[](FileInfo const& a, FileInfo const& b) { return a.index < b.index; });", "[](FileInfo const& a, FileInfo const& b) { return a.index > b.index; });")]),
+ dict(name="c14-ctor-opens-before-recover", ids=["C14"], rule="C14.R5d", subs=[(RSH, "    _clean_and_recover_files(filename, _config.open_mode(), today_timestamp_ns);\n", ""), (RSH, "    _created_files.emplace_front(this->_filename, 0, std::string{});\n\n    if (!this->is_null())", "    _clean_and_recover_files(filename, _config.open_mode(), today_timestamp_ns);\n    _created_files.emplace_front(this->_filename, 0, std::string{});\n\n    if (!this->is_null())")]),
+ dict(name="c12-file_name-length-wrong", ids=["C12"], rule="C12.R6d", subs=[("core/MacroMetadata.h", "                            static_cast<size_t>(_colon_separator_pos - _file_name_pos)};", "                            static_cast<size_t>(_colon_separator_pos)};")]),
+ dict(name="c12-line-includes-colon", ids=["C12"], rule="C12.R6a", subs=[("core/MacroMetadata.h", "    return _source_location + _colon_separator_pos + 1;", "    return _source_location + _colon_separator_pos;")]),
+ dict(name="c20-flag-raised-before-registration", ids=["C20"], rule="C20.R5a", subs=[(TC, """    _spinlock.lock();
+    _thread_contexts.push_back(thread_context);
+    _spinlock.unlock();
+    _new_thread_context_flag.store(true, std::memory_order_release);""", """    _new_thread_context_flag.store(true, std::memory_order_release);
+    _spinlock.lock();
+    _thread_contexts.push_back(thread_context);
+    _spinlock.unlock();""")]),
+ dict(name="c20-cache-reload-skips-invalid", ids=["C20"], rule="C20.R5d", subs=[(BW, """          // We do not skip invalidated && empty queue thread contexts as this is very rare,
+          // so instead we just add them and expect them to be cleaned in the next iteration
+          _active_thread_contexts_cache.push_back(thread_context);""", """          if (thread_context->is_valid()) { _active_thread_contexts_cache.push_back(thread_context); }""")]),
 ]
